@@ -4,6 +4,18 @@
 From Cooler Require Import Model.Create Proofs.PixelsProofs Proofs.CreateProofs.
 From Coq Require Import Permutation Sorting.Sorted.
 
+(** write_pixels_concat: the writing loop alone (no validator, empty datasets).  For EVERY chunk list - any sizes, empty
+    chunks, no chunk - if no write fails, the stored columns are exactly the concatenation of the chunks, the returned
+    nnz is its length and the returned total is the sum of the count column.  (Loop invariant: the first nnz stored
+    rows are the concatenation of the chunks consumed so far; each chunk is written at offset nnz after a resize.) *)
+Theorem C01_write_pixels_concat :
+  forall (V : Type) (dflt : key * V) (fits : key * V -> bool) (count : option (key * V -> Z))
+         (maxsize : Z) (chunks : list (list (key * V))) (r : wstate),
+  write_pixels dflt fits count (fun c => inr c) maxsize ([], 0, 0) chunks = inr r ->
+  r = (concat chunks, zlen (concat chunks), chunk_total count (concat chunks)).
+Proof. exact @write_pixels_concat. Qed.
+Print Assumptions C01_write_pixels_concat.
+
 (** write_pixels_concat / create_pixels_roundtrip: for EVERY chunk list (any sizes, empty chunks and the empty
     list included), if creation succeeds then the stored columns and the pixel table read back as exactly the
     concatenation of the chunks (each chunk sorted first when ensure_sorted is set), nnz is its length, sum is
